@@ -532,7 +532,141 @@ func init() {
 }
 
 // c11Solo: scenarios that set a configuration on the GLOBAL registry (own process).
+// ---- lints that refer to higher-scoped configuration (own process) ----
+//
+// A lint's configuration struct may hold fields of the library's higher-scoped types (Global, the per-source
+// configurations), by value, by pointer, nested: they are filled from OTHER top-level tables. No shipped lint does
+// so, which is why this path is only reachable through probe lints registered via the public API. The same clauses
+// apply: the lint's own options are applied, unrelated tables change nothing, a top-level entry that should be a
+// table but is a scalar makes exactly the lints that refer to it fatal (configuration error, never a panic),
+// everything else keeps its verdict.
+
+type c11HSConfig struct {
+	Opt    int
+	Flag   bool
+	G      *lint.Global
+	BR     lint.CABFBaselineRequirementsConfig
+	Nested struct {
+		E *lint.EtsiEsiConfig
+		N int
+	}
+	hidden int
+}
+
+type c11HSCert struct{ c11HSConfig }
+
+func (l *c11HSCert) Configure() interface{}              { return &l.c11HSConfig }
+func (l *c11HSCert) CheckApplies(*x509.Certificate) bool { return true }
+func (l *c11HSCert) Execute(*x509.Certificate) *lint.LintResult {
+	return &lint.LintResult{Status: lint.Notice, Details: fmt.Sprintf("Opt=%d Flag=%v N=%d", l.Opt, l.Flag, l.Nested.N)}
+}
+
+type c11HSCRL struct{ c11HSConfig }
+
+func (l *c11HSCRL) Configure() interface{}                 { return &l.c11HSConfig }
+func (l *c11HSCRL) CheckApplies(*x509.RevocationList) bool { return true }
+func (l *c11HSCRL) Execute(*x509.RevocationList) *lint.LintResult {
+	return &lint.LintResult{Status: lint.Notice, Details: fmt.Sprintf("Opt=%d Flag=%v N=%d", l.Opt, l.Flag, l.Nested.N)}
+}
+
+func c11HigherScoped(c *mon.Ctx) {
+	g := lint.GlobalRegistry()
+	lint.RegisterCertificateLint(&lint.CertificateLint{LintMetadata: lint.LintMetadata{Name: "n_verif_c11_hs_cert", Description: "verif probe", Citation: "verif", Source: lint.Community},
+		Lint: func() lint.CertificateLintInterface { return &c11HSCert{c11HSConfig{Opt: 7}} }})
+	lint.RegisterRevocationListLint(&lint.RevocationListLint{LintMetadata: lint.LintMetadata{Name: "n_verif_c11_hs_crl", Description: "verif probe", Citation: "verif", Source: lint.Community},
+		Lint: func() lint.RevocationListLintInterface { return &c11HSCRL{c11HSConfig{Opt: 7}} }})
+	var cert, crl *mon.Obj
+	for _, o := range c11Objs {
+		if o.Kind == corpus.Cert && cert == nil {
+			cert = o
+		}
+		if o.Kind == corpus.CRL && crl == nil {
+			crl = o
+		}
+	}
+	type doc struct {
+		label, text string
+		want        string // expected details of the probes; "" = fatal configuration error
+	}
+	docs := []doc{
+		{"no configuration", "", "Opt=7 Flag=false N=0"},
+		{"own options", "[n_verif_c11_hs_cert]\nOpt = 3\nFlag = true\n[n_verif_c11_hs_crl]\nOpt = 3\nFlag = true\n", "Opt=3 Flag=true N=0"},
+		{"own options incl. nested", "[n_verif_c11_hs_cert]\nOpt = 4\n[n_verif_c11_hs_cert.Nested]\nN = 9\n[n_verif_c11_hs_crl]\nOpt = 4\n[n_verif_c11_hs_crl.Nested]\nN = 9\n", "Opt=4 Flag=false N=9"},
+		{"higher-scoped tables present", "[Global]\nx = 1\n[CABFBaselineRequirementsConfig]\ny = true\n[EtsiEsiConfig]\n[n_verif_c11_hs_cert]\nOpt = 5\n[n_verif_c11_hs_crl]\nOpt = 5\n", "Opt=5 Flag=false N=0"},
+		{"higher-scoped tables only", "[Global]\n[CommunityConfig]\nz = 2\n", "Opt=7 Flag=false N=0"},
+		{"Global is a scalar", "Global = 5\n", ""},
+		{"per-source configuration is a string", "CABFBaselineRequirementsConfig = \"x\"\n", ""},
+		{"nested higher-scoped entry is an array", "EtsiEsiConfig = [1, 2]\n", ""},
+		{"own section ill-typed", "[n_verif_c11_hs_cert]\nOpt = \"three\"\n[n_verif_c11_hs_crl]\nOpt = \"three\"\n", ""},
+		{"own section sets a higher-scoped field to a scalar", "[n_verif_c11_hs_cert]\nG = 5\n[n_verif_c11_hs_crl]\nG = 5\n", ""},
+		{"unrelated higher-scoped entry is a scalar", "RFC5280Config = 1\nMozillaRootStorePolicyConfig = true\n", "Opt=7 Flag=false N=0"},
+	}
+	for _, o := range []*mon.Obj{cert, crl} {
+		if o == nil {
+			continue
+		}
+		probe := "n_verif_c11_hs_cert"
+		if o.Kind == corpus.CRL {
+			probe = "n_verif_c11_hs_crl"
+		}
+		g.SetConfiguration(lint.NewEmptyConfig())
+		brs, pv, _ := o.Lint(g)
+		if pv != nil || brs == nil {
+			continue
+		}
+		base := mon.SnapOf(brs)
+		for round := 0; round < 2; round++ { // every document twice, in two orders: nothing may stick
+			order := docs
+			if round == 1 {
+				order = append([]doc{}, docs...)
+				for i, j := 0, len(order)-1; i < j; i, j = i+1, j-1 {
+					order[i], order[j] = order[j], order[i]
+				}
+			}
+			for _, d := range order {
+				cfg, err := lint.NewConfigFromString(d.text)
+				if err != nil {
+					c.R.Inconcl("higher-scoped document does not parse: " + err.Error())
+					continue
+				}
+				g.SetConfiguration(cfg)
+				rs, pv, stack := o.Lint(g)
+				c.R.Count("evaluations", 1)
+				c.R.Count("higher_scoped_judgements", 1)
+				in := inputs(o)
+				in["config.toml"] = []byte(d.text)
+				if pv != nil || rs == nil {
+					c.V("panic-under-configuration|"+o.Kind.String(), fmt.Sprintf("linting a %s panicked at the caller under document %q (lint referring to higher-scoped configuration): %v at %s", o.Kind, d.label, pv, mon.PanicSite(stack)), "", in, nil)
+					continue
+				}
+				got := mon.SnapOf(rs)
+				p := got[probe]
+				switch {
+				case d.want == "" && (p.Status != int(lint.Fatal) || mon.IsRecoveredPanic(p)):
+					c.V("config-error-not-fatal|"+probe, fmt.Sprintf("%s refers to configuration that cannot be applied (%s) but reports %s %q", probe, d.label, lint.LintStatus(p.Status), clipS(p.Details, 120)), probe, in, nil)
+				case d.want != "" && (p.Status != int(lint.Notice) || p.Details != d.want):
+					c.V("configured-result|"+probe, fmt.Sprintf("%s under document %q reports %s %q, want info %q", probe, d.label, lint.LintStatus(p.Status), clipS(p.Details, 120), d.want), probe, in, nil)
+				}
+				for n, b := range base {
+					if n == probe || c05ClockLints[n] {
+						continue
+					}
+					if got[n] != b {
+						c.V("other-lint-changed|"+n, fmt.Sprintf("lint %s changed under document %q, which only concerns the probe lints and higher-scoped tables: %s %q -> %s %q", n, d.label, lint.LintStatus(b.Status), clipS(b.Details, 60), lint.LintStatus(got[n].Status), clipS(got[n].Details, 60)), n, in, nil)
+					}
+				}
+			}
+		}
+	}
+	g.SetConfiguration(lint.NewEmptyConfig())
+}
+
 func c11Solo(c *mon.Ctx) {
+	c11Scenarios(c)
+	c11HigherScoped(c)
+}
+
+func c11Scenarios(c *mon.Ctx) {
 	g := lint.GlobalRegistry()
 	type obs struct {
 		o    *mon.Obj
